@@ -827,7 +827,7 @@ fn process_element<'input>(
         }
     }
 
-    let namespaces = ctx.resolve_namespaces();
+    let namespaces = ctx.resolve_namespaces()?;
     ctx.namespace_start_idx = ctx.doc.namespaces.tree_order.len();
 
     let attributes = resolve_attributes(namespaces, ctx)?;
@@ -924,13 +924,13 @@ fn process_element<'input>(
 }
 
 impl Context<'_> {
-    fn resolve_namespaces(&mut self) -> ShortRange {
+    fn resolve_namespaces(&mut self) -> Result<ShortRange> {
         if let NodeKind::Element { ref namespaces, .. } =
             self.doc.nodes[self.parent_id.get_usize()].kind
         {
             let parent_ns = *namespaces;
             if self.namespace_start_idx == self.doc.namespaces.tree_order.len() {
-                return parent_ns;
+                return Ok(parent_ns);
             }
 
             for i in parent_ns.to_urange() {
@@ -946,7 +946,12 @@ impl Context<'_> {
             }
         }
 
-        (self.namespace_start_idx..self.doc.namespaces.tree_order.len()).into()
+        // `ShortRange` stores `u32` offsets.
+        if self.doc.namespaces.tree_order.len() > u32::MAX as usize {
+            return Err(Error::NamespacesLimitReached);
+        }
+
+        Ok((self.namespace_start_idx..self.doc.namespaces.tree_order.len()).into())
     }
 }
 
